@@ -364,9 +364,13 @@ def ob_shape_kept(sys, gname, mname, shape):
         G = mk_gate(c, hsG)
         M0 = objlib.mprocesses(sys)[mname]
         M = mk_mprocess(c, [h.copy() for h in M0.hss], shape=tuple(shape))
+        # applied to a state: the ensemble's distribution keeps the multi-axis outcome shape
+        st_ = mk_state(c, tomo_lib.dm_to_vec(tomo_lib.state_mats(sys)[4], sys))
+        ens = comp(M, st_)
         GM = comp(G, M)      # M first, then G
         MG = comp(M, G)      # G first, then M
-        out = [Holds("G o M keeps the outcome shape", tuple(GM.shape) == tuple(shape)), Holds("M o G keeps the outcome shape", tuple(MG.shape) == tuple(shape)),
+        out = [Holds("M on a state: the ensemble's distribution has the outcome shape of M", tuple(ens.prob_dist.shape) == tuple(shape)),
+               Holds("G o M keeps the outcome shape", tuple(GM.shape) == tuple(shape)), Holds("M o G keeps the outcome shape", tuple(MG.shape) == tuple(shape)),
                Holds("number of outcomes kept", len(GM.hss) == len(M.hss) and len(MG.hss) == len(M.hss))]
         for x in range(len(M.hss)):
             out.append(Eq(f"(G o M)_{x} == hs(G) hs(M_{x})", GM.hss[x], refs.mm(hsG, M.hss[x]), 1e-9))
